@@ -27,7 +27,8 @@ RULE = ('bounded-exhaustive over sources (length 0..L over a 3-value domain; as 
         'list, range, iterator), conditions (stateful callable given as a table, or list / iterator / '
         'generator of selector objects shorter, equal, longer, with truthy and falsy non-bool values) '
         'and interleavings of next() on the two result iterators (all T/F strings up to length L+2 '
-        'for small L, random ones beyond); distinct = distinct (source, condition, ops) triple with a '
+        'for small L, random ones beyond; in 30% of the random cases the three source values are the objects None / 0 / \'\' '
+        'instead of 0 / 1 / 2); distinct = distinct (source, condition, ops) triple with a '
         'non-empty source and at least one next(); each case runs on aiuti.itertools.split and on the '
         'Lean model and is judged by an independent filter-based monitor')
 
@@ -58,10 +59,31 @@ def sel_obj(code):
     return (TRUTHY if code % 2 else FALSY)[(code // 2) % 5]
 
 
+# Elements that code tends to mistake for "nothing": the source's values 0, 1, 2 are presented to split() as these
+# objects when a case says so ('awk'); logs and outputs are translated back by identity.
+AWKWARD = [None, 0, '']
+
+
+def _unawk(v):
+    for i, e in enumerate(AWKWARD):
+        if v is e:
+            return i
+    return 'foreign:%r' % (v,)
+
+
 def run_impl(case):
     """Execute one case on the real split(); returns (outs, pulled or None, predlog)."""
+    outs, pulled, predlog = _run_impl(case)
+    if case.get('awk'):
+        pulled = None if pulled is None else [_unawk(v) for v in pulled]
+        predlog = [_unawk(v) for v in predlog]
+    return outs, pulled, predlog
+
+
+def _run_impl(case):
     from aiuti.itertools import split
-    xs = case['src']
+    awk = bool(case.get('awk'))
+    xs = [AWKWARD[x] for x in case['src']] if awk else case['src']
     pulled = []
     predlog = []
     kind = case['srckind']
@@ -101,7 +123,7 @@ def run_impl(case):
         def pred(x):
             k = len(predlog)
             predlog.append(x)
-            return sel_obj(tab[k][x]) if k < len(tab) else False
+            return sel_obj(tab[k][_unawk(x) if awk else x]) if k < len(tab) else False
         cond = pred
     else:
         objs = [sel_obj(c) for c in case['cond']]
@@ -124,7 +146,7 @@ def run_impl(case):
         it = t if ch == 'T' else f
         try:
             v = next(it)
-            outs.append(ch + str(v))
+            outs.append(ch + str(_unawk(v) if awk else v))
         except StopIteration:
             outs.append(ch + 'S')
     return outs, (pulled if kind in ('gen', 'reiter', 'drain') else None), predlog
@@ -221,6 +243,8 @@ def gen_cases(ctx):
         case = {'src': xs, 'srckind': rng.choice(['gen', 'gen', 'list', 'iter', 'reiter', 'drain'])}
         if xs == list(range(n)) and rng.random() < 0.5:
             case['srckind'] = 'range'
+        elif rng.random() < 0.3:
+            case['awk'] = True       # the elements are None / 0 / '' instead of 0 / 1 / 2
         if rng.random() < 0.5:
             case['kind'] = 'callable'
             case['tab'] = [[rng.randrange(10) for _ in dom] for _ in range(n + 2)]
